@@ -517,6 +517,18 @@ def one_session(ctx, i, rng, return_logprobs=False, force=None, problem_kw=None,
     if N == 1 and inj_kind == "neg-inf":
         inj_kind = "none"
     inj = make_injection(rng, pb, inj_kind)
+    if not as_int and N >= 4 and inj_kind == "none" and rng.random() < 0.2:
+        # rows whose likelihood is *really* -inf (a jitter so large that s^2 overflows): produced by the kernel itself, not
+        # injected at the input of the rejection code - whatever happens to non-finite values on the way there is exercised
+        rows_nf = rng.choice(N, size=int(rng.integers(1, 4)), replace=False)
+        sv_ = np.array(pb.lib["s"].value, dtype=float, copy=True)
+        sv_[rows_nf] = 1e160
+        pb.lib["s"] = sv_ * pb.lib["s"].unit
+        pb.s_seen = pb.lib["s"].to_value(gen.U(pb.du))
+        pb.rows["s_kms"] = np.asarray(pb.lib["s"].to_value("km/s"), dtype=float)
+        real_nf = [int(x) for x in rows_nf]
+    else:
+        real_nf = []
     # reference likelihood of every library row
     ll_lib = np.asarray(TheJoker(pb.prior).marginal_ln_likelihood(pb.data, pb.lib, in_memory=True), dtype=float)
     if inj is not None:
@@ -533,7 +545,7 @@ def one_session(ctx, i, rng, return_logprobs=False, force=None, problem_kw=None,
     if force:
         opts.update(force)
     desc = dict(index=i, N=N, profile=pb.profile, injected=inj_kind, opts=dict(opts), as_file=as_file, seed=seed,
-                library_by_count=as_int,
+                library_by_count=as_int, rows_with_overflowing_jitter=real_nf,
                 n_epochs=len(pb.lin.t), poly_trend=pb.ps["poly_trend"], n_offsets=pb.ps["n_offsets"],
                 lib_units=pb.lib_units)
     recgen.reset()
@@ -713,6 +725,14 @@ def iterative_session(ctx, i, rng, return_logprobs=False, problem_kw=None):
             opts["max_prior_samples"] = int(rng.choice([max(1, N // 10), max(1, N // 2), N, N - 1 if N > 1 else 1, N + 7]))
         if rng.random() < 0.4:
             opts["n_batches"] = int(rng.choice([1, 2, 5]))
+    if rng.random() < 0.07:
+        # a library too small for the first batch together with a budget larger than the library: the request cannot be
+        # served and must be refused, whatever the budget says
+        in_memory = False
+        opts["in_memory"] = False
+        opts.pop("growth_factor", None)
+        opts["init_batch_size"] = int(rng.choice([N + 1, N + 50, 3 * N]))
+        opts["max_prior_samples"] = int(rng.choice([N + 7, 5 * N]))
     if return_logprobs:
         opts["return_logprobs"] = True
     inj_kind = str(rng.choice(["none", "none", "none", "neg-inf", "ties"]))
